@@ -49,7 +49,7 @@ def showObs (op : Op) : Obs → String
   | .done => (match op with | .add .. => "ad" | _ => "up")
   | .bool b => toString b
   | .code none => "none"
-  | .code (some c) => s!"/*s{c}*/"
+  | .code (some c) => if c < 10 then s!"/*s{c}*/" else "/*s" ++ (Char.ofNat (87 + c)).toString ++ "*/"  -- ids from 10: a, b, …
   | .value none => "nil"
   | .value (some c) => toString (10 + c)
   | .names ns => "[" ++ ", ".intercalate ((ns.foldr insertSortedNat []).map nameStr) ++ "]"
